@@ -1081,7 +1081,9 @@ func compareHash(a *SexpHash, bs Sexp) (int, error) {
 func (p *SexpHash) CopyMap() *map[int][]*SexpPair {
 	cp := make(map[int][]*SexpPair)
 	for k, v := range p.Map {
-		cp[k] = v
+		// a bucket of its own: HashSet replaces pairs in place
+		// (arr[i] = ...), which the original must not see.
+		cp[k] = append([]*SexpPair(nil), v...)
 	}
 	return &cp
 }
@@ -1093,7 +1095,9 @@ func (p *SexpHash) CloneFrom(src *SexpHash) {
 	p.TypeName = src.TypeName
 	p.Map = *(src.CopyMap())
 
-	p.KeyOrder = src.KeyOrder
+	// an order list of its own: both hashes append to theirs, and a
+	// shared backing array would let one overwrite the other's entry.
+	p.KeyOrder = append([]Sexp(nil), src.KeyOrder...)
 	p.GoStructFactory = src.GoStructFactory
 	p.NumKeys = src.NumKeys
 	p.GoMethods = src.GoMethods
